@@ -149,3 +149,13 @@ pub proof fn lemma_blen_ascii(c: char) requires (c as u32) < 128 ensures blen(se
     assert(is_ascii_chars(seq![c]));
     is_ascii_chars_encode_utf8(seq![c]);
 }
+
+// plain str helpers (std functions without a vstd spec)
+#[verifier::external_body]
+pub fn __str_to_string(s: &str) -> (r: String) ensures r@ == s@ { s.to_string() }
+#[verifier::external_body]
+pub fn __str_eq(a: &str, b: &str) -> (r: bool) ensures r == (a@ == b@) { a == b }
+#[verifier::external_body]
+pub fn __str_is_empty(a: &str) -> (r: bool) ensures r == (a@.len() == 0) { a.is_empty() }
+#[verifier::external_body]
+pub fn __str_ne(a: &str, b: &str) -> (r: bool) ensures r == (a@ != b@) { a != b }
